@@ -160,3 +160,38 @@ func (s *Server) VerifIndexSubscriptions() map[string][]string {
 	walk(s.Topics.root)
 	return out
 }
+
+// VerifAgeState makes every stored timestamp delta seconds older, which is equivalent to the
+// clock having advanced by delta for all existing state: disconnection times of clients,
+// Created/Expiry of retained, in-flight and delayed-will packets. Afterwards the housekeeping
+// functions and WritePacket, which read the real clock, see that much time as elapsed.
+func (s *Server) VerifAgeState(delta int64) {
+	age := func(pk packets.Packet) packets.Packet {
+		if pk.Created > 0 {
+			pk.Created -= delta
+		}
+		if pk.Expiry > 0 {
+			pk.Expiry -= delta
+			if pk.Expiry <= 0 {
+				pk.Expiry = 1 // expired long ago; keep it a positive timestamp
+			}
+		}
+		return pk
+	}
+	for _, cl := range s.Clients.GetAll() {
+		if d := atomic.LoadInt64(&cl.State.disconnected); d != 0 {
+			atomic.StoreInt64(&cl.State.disconnected, d-delta)
+		}
+		cl.State.Inflight.Lock()
+		for id, pk := range cl.State.Inflight.internal {
+			cl.State.Inflight.internal[id] = age(pk)
+		}
+		cl.State.Inflight.Unlock()
+	}
+	for topic, pk := range s.Topics.Retained.GetAll() {
+		s.Topics.Retained.Add(topic, age(pk))
+	}
+	for id, pk := range s.loop.willDelayed.GetAll() {
+		s.loop.willDelayed.Add(id, age(pk))
+	}
+}
